@@ -169,6 +169,12 @@ Ep2Accept(e) ==
 (* handle the identity: when a table entry iP + jQ is the identity (joint: *)
 (* Q = P or Q = -P; trick: some 0 <= i, j < 2^(w/2)) the call throws or    *)
 (* returns a wrong point.  (Same code pattern as ep_norm_sim.)             *)
+(*                                                                         *)
+(* C11-slide-long-scalar: ep2_mul_slide recodes the scalar AS GIVEN into a *)
+(* buffer of RLC_FP_BITS + 1 windows (bn_rec_slw needs one window per bit  *)
+(* in the worst case and checks bits(k) against the buffer): unlike        *)
+(* ep_mul_slide it does not reduce k modulo the group order first, so      *)
+(* every |k| of more than RLC_FP_BITS + 1 bits throws.                     *)
 (***************************************************************************)
 SimTableInf(e, cx) ==
     LET c == cx.c
@@ -181,7 +187,7 @@ SimTableInf(e, cx) ==
                 /\ XAdd(XMulB(BFromNat(i), P, c), XMulB(BFromNat(j), Q, c), c).inf
 
 Ep2KnownKey(e) ==
-    IF e.op \notin {"ep2_cmp", "ep2_mul_sim_joint", "ep2_mul_sim_trick"} \/ ~TowerOk(e) THEN ""
+    IF e.op \notin {"ep2_cmp", "ep2_mul_sim_joint", "ep2_mul_sim_trick", "ep2_mul_slide"} \/ ~TowerOk(e) THEN ""
     ELSE
     LET cx == Cx(e) IN
     CASE /\ e.op = "ep2_cmp" /\ AnyRep(e, cx, e.P) /\ AnyRep(e, cx, e.Q) /\ Ok(e)
@@ -196,5 +202,10 @@ Ep2KnownKey(e) ==
          /\ e.crash = 0 /\ e.err # 0 /\ e.code = 1
          /\ SimTableInf(e, cx)
             -> "C11-sim-table-infinity"
+      [] /\ e.op = "ep2_mul_slide"
+         /\ RepOk(e, cx, e.P, SysOf(e)) /\ OnC(cx, e.P) /\ ~X2Abs(cx, e.P).inf
+         /\ BBits(e.k.d) > e.fpb + 1
+         /\ e.crash = 0 /\ e.err # 0 /\ e.code = 1
+            -> "C11-slide-long-scalar"
       [] OTHER -> ""
 =============================================================================
